@@ -210,28 +210,45 @@ def arm_accounting(F, rep):
             warns = [jj for jj, uu in cb.calls() if parse_callee(uu["callee"])[2] == "push" and "String" in " ".join(uu.get("aty") or [])]
             rep.ob("R2", f"{cb.short}:unmatched-warns", bool(warns), "an unmatched cancellation produces a warning" if warns else
                    "an unmatched Cancel Sell is dropped silently", cb.loc(), key=f"R2:{cb.short}:unmatched-warns")
-            # predicate compares date, symbol, quantity, price
+            # predicate: each of date, symbol, quantity, price of the row is compared with the SAME field of the cancellation
             for c in F.children(cb.id):
                 ccb = F.bodies[c]
-                cmpf = set()
                 ct = Terms(F, ccb, inline_depth=0)
-                for s_ in ccb.reachable():
-                    tt = ccb.term(s_)
-                    if tt["k"] == "switch":
-                        cond = ct.operand(tt["discr"])
-                        for x in subterms(cond):
-                            if isinstance(x, tuple) and len(x) == 3 and x[0] == "field" and isinstance(x[2], str):
-                                cmpf.add(x[2])
-                r0 = ct.local(0)
-                for x in subterms(r0):
-                    if isinstance(x, tuple) and len(x) == 3 and x[0] == "field" and isinstance(x[2], str):
-                        cmpf.add(x[2])
+                # captured operands (Rust 2021 captures the individual fields of `cancel`)
+                caps = []
+                for pi, psi, ps in cb.assigns():
+                    if ps["rv"]["k"] == "closure" and ps["rv"]["id"] == c:
+                        caps = [ctb.operand(o) for o in ps["rv"]["ops"]]
+                conds = [ct.operand(ccb.term(s_)["discr"]) for s_ in ccb.reachable() if ccb.term(s_)["k"] == "switch"] + [ct.local(0)]
+                keys = set()
+
+                def names_of(t):
+                    if c18_upvar(t):
+                        # substitute the capture
+                        from rules.c16 import _upvar_index
+                        k = _upvar_index(t)
+                        if k is not None and k < len(caps):
+                            t = caps[k]
+                    return {y[2] for y in subterms(t) if isinstance(y, tuple) and len(y) == 3 and y[0] == "field" and isinstance(y[2], str)}
+                for cnd in conds:
+                    for x in subterms(cnd):
+                        if isinstance(x, tuple) and x and x[0] == "cmp" and x[1] == "Eq" and x[2] != x[3]:
+                            if c18_upvar(x[2]) != c18_upvar(x[3]):  # one side from the captured cancellation, the other from the row
+                                keys |= (names_of(x[2]) & names_of(x[3])) & {"date", "symbol", "quantity", "price"}
                 need = {"date", "symbol", "quantity", "price"}
-                if cmpf & need:
-                    rep.ob("R2", f"{cb.short}:match-key", need <= cmpf,
-                           "a cancellation matches a sell on date, symbol, quantity and price" if need <= cmpf else
-                           f"cancellation matches on {sorted(cmpf & need)} only: it can remove a different sell", ccb.loc(),
+                if caps:
+                    rep.ob("R2", f"{cb.short}:match-key", need <= keys,
+                           "a cancellation matches a sell on date, symbol, quantity and price" if need <= keys else
+                           f"cancellation compares only {sorted(keys)} between the cancel and the sell: it can remove a different sell", ccb.loc(),
                            key=f"R2:{cb.short}:match-key")
+
+
+def c18_upvar(t):
+    """True if the term is rooted at the closure environment (a captured value)"""
+    for y in subterms(t):
+        if isinstance(y, tuple) and len(y) == 3 and y[0] == "field" and isinstance(y[1], tuple) and y[1] and y[1][0] == "param" and y[1][1] == 0:
+            return True
+    return False
 
 
 def _first_sp(b, bb):
